@@ -536,21 +536,22 @@ def index_blocks(b: Blocks, idx: list) -> Val:
             v = hits[0]["val"]
             if disjoint and isinstance(v, (Arr, DiagMat)):
                 return v
-    return index(densify(b), idx)
+    # any other region: the entries keep their (row, column) in the assembled matrix
+    return index(_positional(b), idx)
 
 
 def flatten(v: Val) -> Val:
     if isinstance(v, Bag):
         return v
     if isinstance(v, (Blocks, DiagMat)):
-        return Bag(generic_elem(v), None, False, getattr(v, "uid", None))
+        return Bag(generic_elem(v), None, False, getattr(v, "uid", None), [v])
     if isinstance(v, Arr):
         if v.ndim == 1:
             return v
         size = sym.ONE
         for sp, _ in v.axes:
             size = sym.mul(size, sp.size)
-        return Bag(v.elem, size, False, v.uid)
+        return Bag(v.elem, size, False, v.uid, [v])
     a = to_arr(v)
     if isinstance(a, Arr):
         return flatten(a)
